@@ -1,4 +1,65 @@
 import OsloModel.Proto
+import OsloModel.Units
+open Oslo Oslo.Units Oslo.Proto
 
--- stub: replaced by the real driver of this property group
-def main : IO Unit := Oslo.Proto.serve (fun _ => "bad-request")
+/-
+Requests (TAB separated, text fields hex-encoded UTF-8, "-" = empty):
+  s2b   <unit_system> <text> <0|1 return_int>
+  qemu  <details>                 QemuImgInfo._extract_bytes
+  field <details>                 the virtual_size/cluster_size/disk_size rule of _extract_details
+Reply: float <num> <den> [<mant> <10^scale>] | int <n> | inf <0|1 negative> | tiny <num> <den> | unmodelled
+       | ValueError | OverflowError | KeyError | TypeError | bad-request
+-/
+
+def showErr : Err → String
+  | .valueError => "ValueError"
+  | .overflowError => "OverflowError"
+  | .keyError => "KeyError"
+  | .typeError => "TypeError"
+
+def showOutcome : Outcome → String
+  | .float n d => s!"float {n} {d}"
+  | .int n => s!"int {n}"
+  | .inf neg => if neg then "inf 1" else "inf 0"
+  | .tiny n d => s!"tiny {n} {d}"
+  | .unmodelled => "unmodelled"
+
+def showRes : Except Err Outcome → String
+  | .ok o => showOutcome o
+  | .error e => showErr e
+
+/-- the magnitude the model parsed, ` <mant> <10^scale>` (lets the harness decide whether the
+    computation is exact in binary64); glue, not part of any theorem -/
+def magOf (text : List Char) : String :=
+  match parseNumber (splitSign text).2 with
+  | some (d1, d2, _) => s!" {natOfDigits (d1 ++ fracDigits d2)} {10 ^ (fracDigits d2).length}"
+  | none => ""
+
+def showS2b (text : List Char) : Except Err Outcome → String
+  | .ok (.float n d) => s!"float {n} {d}" ++ magOf text
+  | r => showRes r
+
+/-- for a size field converted through string_to_bytes the reply is `<result>;<the same text with
+    return_int=False>` so that the harness can apply the float rule to the exact quantity -/
+def showQemu (d : List Char) (r : Except Err Outcome) : String :=
+  match extractStep d with
+  | .viaS2b text => showRes r ++ ";" ++ showS2b text (stringToBytes ['I', 'E', 'C'] text false)
+  | .done _ => showRes r
+
+def handle : List String → String
+  | ["s2b", sys, text, ri] =>
+    match unhexChars sys, unhexChars text, ri with
+    | some sys, some text, "0" => showS2b text (stringToBytes sys text false)
+    | some sys, some text, "1" => showS2b text (stringToBytes sys text true)
+    | _, _, _ => "bad-request"
+  | ["qemu", details] =>
+    match unhexChars details with
+    | some d => showQemu d (extractBytes d)
+    | none => "bad-request"
+  | ["field", details] =>
+    match unhexChars details with
+    | some d => if isUnavailable d then showRes (sizeField d) else showQemu d (sizeField d)
+    | none => "bad-request"
+  | _ => "bad-request"
+
+def main : IO Unit := serve handle
